@@ -61,6 +61,8 @@ def make_solver(case, S):
     K = S["k"] if case["kvec"] else np.diag(S["k"])
     rb = S["idx"]["rb"] if case["rb_given"] else None
     rf = S["idx"]["rf"] or None
+    rb, _l1 = util.partition_form(rb, S["n"], case.get("ppack", "list"), case["seed"] + 31)
+    rf, _l2 = util.partition_form(rf, S["n"], case.get("ppack", "list"), case["seed"] + 32)
     kw = dict(rb=rb, rf=rf, order=case["order"])
     h = case["h"]
     if fam in ("unc", "eig"):
@@ -82,8 +84,14 @@ def oracle(case, R):
     if ic == "random":
         d0 = rng.integers(-3, 4, n).astype(float)
         v0 = rng.integers(-3, 4, n).astype(float) / h
+    # the problem may be posed in any units: every force and initial condition times one factor (the problem is
+    # linear, every tolerance below is relative to the magnitudes actually present)
+    fsc = float(case.get("fscale", 1.0))
+    if d0 is not None:
+        d0, v0 = d0 * fsc, v0 * fsc
     static_ic = ic == "static"
-    F0 = np.array(case["f0"], float)
+    F0 = np.array(case["f0"], float) * fsc
+    R.label("fscale=1" if fsc == 1.0 else ("fscale<1e-8" if fsc < 1e-8 else "fscale:other"))
     ts = mk()
     R.label(f"family={case['family']}", f"order={order}", f"ic={ic}", f"m={case['mform']}",
             "blocks=" + "|".join(bn for bn, _ in case["blocks"]),
@@ -149,7 +157,7 @@ def oracle(case, R):
         kind = op[0]
         nops += 1
         if kind == "adv":
-            f = np.array(op[1], float)
+            f = np.array(op[1], float) * fsc
             last += 1
             force[:, last] = f
             fabs[:, last] = np.abs(f)
@@ -157,7 +165,7 @@ def oracle(case, R):
             if pending_addon:
                 nontriv_addon = True
         elif kind == "redo":
-            f = np.array(op[1], float)
+            f = np.array(op[1], float) * fsc
             force[:, last] = f
             fabs[:, last] = np.abs(f)
             gen.send((last, f))
@@ -165,7 +173,7 @@ def oracle(case, R):
             pending_addon = False
         elif kind == "back":
             i = op[1]
-            f = np.array(op[2], float)
+            f = np.array(op[2], float) * fsc
             last = i
             force[:, last] = f
             force[:, last + 1:] = 0.0
@@ -175,7 +183,7 @@ def oracle(case, R):
             nontriv_redo = True
             pending_addon = False
         elif kind == "addon":
-            f = np.array(op[1], float)
+            f = np.array(op[1], float) * fsc
             force[:, last] += f
             fabs[:, last] += np.abs(f)
             gen.send((-1, hand(f)))
@@ -197,14 +205,14 @@ def oracle(case, R):
             for j in range(p):
                 e = np.zeros(p)
                 e[j] = 1.0
-                add = phi.T @ e
+                add = phi.T @ e * fsc          # (a unit of the problem's own force scale; get_f2x is linear)
                 before = arr[:, last].copy()
                 gen.send((-1, add))
-                delta = arr[:, last] - before
+                delta = (arr[:, last] - before) / fsc
                 gen.send((-1, -add))
                 col = phi @ delta
                 # delta is a difference of O(|x|) numbers: absolute rounding ~ eps*|x|*|phi|
-                noise = EPS * (np.abs(phi) @ np.abs(before)).max()
+                noise = EPS * (np.abs(phi) @ np.abs(before)).max() / fsc
                 err = np.abs(col - flex[:, j]).max()
                 R.metric("f2x/tol", err / (CTOL * EPS * scale + 50 * noise))
                 R.check(err <= CTOL * EPS * scale + 50 * noise, "f2x_vs_unit_addon",
@@ -311,7 +319,10 @@ def histories(draw, family):
             "f0": draw(fvec), "ops": ops, "rb_given": draw(st.booleans()), "bvec": draw(st.booleans()),
             "fpack": draw(st.sampled_from(["same", "same", "int", "readonly"])),   # (documented: 1d ndarray)
             "kvec": draw(st.booleans()), "cpl": draw(st.sampled_from([0.05, 0.3, 0.8])),
-            "get_force": draw(st.booleans())}
+            "get_force": draw(st.booleans()),
+            # (the generator interface is documented to need contiguous blocks: the sets stay in ascending order)
+            "ppack": draw(st.sampled_from(["list", "list", "array", "int32", "bool"])),
+            "fscale": draw(st.sampled_from([1.0, 1.0, 1.0, 1e-10, 2.0 ** -30, 1e-6, 1e8, 2.0 ** 30]))}
 
 
 PARTS = [
